@@ -76,6 +76,13 @@ static int c35_name(char *buf)
 	int n;
 	vp_bytes(buf, C35_N);
 	buf[C35_N] = 0;
+#ifdef C35_FIXLEN
+	/* formatter-level obligations: single-label names of exactly C35_N bytes (label structure
+	 * concrete, bytes symbolic, so equal and distinct names both occur); arbitrary label
+	 * structures are the subject of harness_labels */
+	for (n = 0; n < C35_N; n++) __CPROVER_assume(buf[n] != 0 && buf[n] != '.');
+	return C35_N;
+#endif
 	n = (int)strlen(buf);
 	__CPROVER_assume(dnsref_name_encodable(buf, n));
 	return n;
@@ -112,7 +119,15 @@ void harness_format(void)
 	for (k = 0; k < C35_R; k++) {
 		struct c35_rec *x = &rec[k];
 		c35_name(x->name);
+#ifdef C35_SECMODE
+		/* formatter-level obligations: concrete section per record (a symbolic section makes each of
+		 * the three lists possibly hold each record: 3x the formatter body per record).
+		 * mode 0: all answers; mode 1: record k in section min(k,2); mode 2: record k in section 2-min(k,2)
+		 * (added in reverse section order: wire order is by section, not by add order) */
+		x->section = C35_SECMODE == 0 ? 0 : C35_SECMODE == 1 ? (k < 2 ? k : 2) : 2 - (k < 2 ? k : 2);
+#else
 		x->section = (int)vp_range(prev_section, 2); prev_section = x->section;
+#endif
 		x->type = vp_u16(); x->klass = vp_u16(); x->ttl = (int)vp_u32(); x->is_name = vp_bool();
 		if (x->is_name) { c35_name(x->dname); x->datalen = -1; }
 		else { x->datalen = (int)vp_range(0, C35_D); vp_bytes(x->raw, C35_D); }
@@ -154,8 +169,11 @@ void harness_format(void)
 	}
 	if (!truncated) {
 		VP_ASSERT(h.an == (unsigned)cnt[0] && h.ns == (unsigned)cnt[1] && h.ar == (unsigned)cnt[2], "C35: header counts != records added per section");
+		/* expected wire order: by section, add order within a section */
+		int order[C35_R > 0 ? C35_R : 1], no = 0, sec;
+		for (sec = 0; sec < 3; sec++) for (k = 0; k < C35_R; k++) if (rec[k].section == sec) order[no++] = k;
 		for (k = 0; k < C35_R; k++) {
-			struct c35_rec *x = &rec[k]; struct dnsref_rr rr;
+			struct c35_rec *x = &rec[order[k]]; struct dnsref_rr rr;
 			r = dnsref_rr(m, len, off, dn, (int)sizeof(dn), &rr);
 			VP_ASSERT(r == DNSREF_OK, "C35: record does not decode");
 			if (r != DNSREF_OK) return;
@@ -269,4 +287,38 @@ void harness_labels(void)
 	if (nlen > 0 && name[nlen - 1] == '.') VP_WITNESS("absolute name encoded");
 	dnslabel_clear(&table);
 	VP_ASSERT(c35_live == 0, "C35: dnslabel_clear leaks table strings");
+}
+
+/* ---- 14-bit pointer range (TCP responses may reach 64 KiB; evdns_server_request_format_response
+ * formats into a 64 KiB buffer and registers every suffix with its offset).  A 64 KiB symbolic
+ * buffer does not fit in memory, so the step is cut at the table: a suffix is registered through
+ * the real dnslabel_table_add at a symbolic offset P in [0, 65535] -- exactly what
+ * dnsname_to_labels does with its current offset j, there is no range check on that path -- and the
+ * same name is then encoded into a fresh small buffer.  If a pointer is emitted it must denote P. */
+void harness_ptr14(void)
+{
+	struct dnslabel_table table;
+	u8 buf[C35_N + 4];
+	char name[C35_N + 1], dn[C35_N + 2];
+	int nlen, r0, txt, nx;
+	unsigned P = (unsigned)vp_range(0, 65535);
+	off_t r;
+	dnslabel_table_init(&table);
+	nlen = c35_name(name);
+	__CPROVER_assume(nlen > 0 && name[0] != '.');
+	(void)dnslabel_table_add(&table, name, (off_t)P); /* result ignored, as in dnsname_to_labels */
+	vp_bytes(buf, sizeof(buf));
+	r = dnsname_to_labels(buf, sizeof(buf), 0, name, (size_t)nlen, &table);
+	VP_ASSERT(r > 0, "C35: encoding failed in a sufficient buffer");
+	if (r <= 0) { dnslabel_clear(&table); return; }
+	if ((buf[0] & 0xc0) == 0xc0) {
+		VP_ASSERT(r == 2, "C35: pointer for a whole registered name is 2 octets");
+		VP_ASSERT(((unsigned)(buf[0] & 0x3f) << 8 | buf[1]) == P, "C35: compression pointer does not denote the registered offset (offsets >= 0x4000 do not fit the 14-bit pointer and are truncated)");
+		VP_WITNESS("registered name compressed");
+	} else {
+		r0 = dnsref_name(buf, (int)r, 0, dn, (int)sizeof(dn), &nx, &txt, NULL);
+		VP_ASSERT(r0 == DNSREF_OK && c35_same_name(dn, txt, name) && nx == (int)r, "C35: uncompressed name does not decode back");
+		VP_WITNESS("name at an unrepresentable offset not compressed");
+	}
+	dnslabel_clear(&table);
 }
